@@ -48,6 +48,9 @@ let rec parse_op (s : string) : op =
      | _ -> failwith "bind")
   | 'U' -> (match ints (rest s) with [i; n] -> OUnbind (pos_of_idx i, z_of_int n) | _ -> failwith "unbind")
   | 'y' -> OGeom (pos_of_idx (int_of_string (rest s)))
+  | 'q' | 'z' | 'P' -> OTouch (pos_of_idx (int_of_string (rest s)), None, false)
+  | 'Q' -> (match ints (rest s) with [i; j] -> OTouch (pos_of_idx i, Some (pos_of_idx j), false) | _ -> failwith "pen op")
+  | 'o' -> (match ints (rest s) with [i; j] -> OTouch (pos_of_idx i, Some (pos_of_idx j), true) | _ -> failwith "pen op")
   | _ -> failwith ("op " ^ s)
 
 let join sep l = if l = [] then "-" else String.concat sep l
@@ -80,6 +83,9 @@ let string_of_op = function
   | OBind (w, _, _, _, _, _) -> Printf.sprintf "b%d" (idx_of_pos w)
   | OUnbind (w, n) -> Printf.sprintf "U%d.%d" (idx_of_pos w) (int_of_z n)
   | OGeom w -> Printf.sprintf "y%d" (idx_of_pos w)
+  | OTouch (w, None, _) -> Printf.sprintf "q%d" (idx_of_pos w)
+  | OTouch (w, Some j, false) -> Printf.sprintf "Q%d.%d" (idx_of_pos w) (idx_of_pos j)
+  | OTouch (w, Some j, true) -> Printf.sprintf "o%d.%d" (idx_of_pos w) (idx_of_pos j)
   | ONop -> "-"
   | OFrameRef w -> Printf.sprintf "+%d" (idx_of_pos w)
   | OFrameUnref w -> Printf.sprintf "~%d" (idx_of_pos w)
@@ -158,7 +164,7 @@ let model_T asis toks =
 (* ---- O: other object kinds ------------------------------------------------------------ *)
 let obj i = pos_of_idx i
 let parse_oop (s : string) : oop =
-  if s = "-" then ObUse [] else
+  if s = "-" || s = "T+n" then ObUse [] else   (* T+n: tickit_term_build with a type no driver accepts: no object *)
   if String.length s >= 2 && s.[1] = '+' then
     (match s.[0] with
      | 'K' -> ObNew ([obj (int_of_string (String.sub s 2 (String.length s - 2)))], [])
